@@ -47,4 +47,14 @@ TEXT.update({
         note="Trusted: Lean kernel + 3 standard axioms; reflect's assignability/panic contract is modelled on a finite type universe; tie = this run's differential.",
         technique="Lean 4 proof (induction over argument/target lists) + differential execution through reflect.MakeFunc callees"),
 })
+TEXT.update({
+    "C15": dict(
+        text="Lean theorems about a faithful model of PublishContext's loop (failureCases/failureRefs/successCases with the break-loop re-basing): for every "
+             "set and order of eligible subscribers and every sequence of reflect.Select outcomes each iteration removes exactly the chosen subscriber, its guard "
+             "and its ref and keeps all remaining refs pointing at their own send case (iter_failure, iter_success, never an out-of-range index); hence over a whole "
+             "publish nobody is delivered twice, nobody outside the eligible set receives, and when no send is left everyone was delivered or had its own context fire "
+             "(publish_exactly_once). Tied by a forced-choice differential that compares failureRefs after every iteration, eligibility and registry behaviour.",
+        note="Trusted: Lean kernel + 3 standard axioms; reflect.Select modelled as nondeterministic choice; eligibility by element type modelled on 4 element classes; tie = this run's differential.",
+        technique="Lean 4 proof (list-index refinement to an erase-by-position abstraction, Perm accounting) + forced-schedule differential execution"),
+})
 NOT_YET = {}
